@@ -95,8 +95,9 @@ def step (st : St) (line : String) : St × List String :=
   let toks := (line.splitOn " ").filter (· ≠ "")
   let w := st.w
   let fin (w' : World) (outs : List String) : St × List String :=
-    if w'.threw then ({ st with w := { w' with threw := false } }, ["threw bad_alloc"])
-    else ({ st with w := w' }, outs ++ [ledgerLine w.heap w'.heap])
+    let errs := (w'.heap.errs.drop w.heap.errs.length).map (fun e => s!"MODEL-LEDGER-ERROR {e}")
+    if w'.threw then ({ st with w := { w' with threw := false } }, errs ++ ["threw bad_alloc"])
+    else ({ st with w := w' }, outs ++ errs ++ [ledgerLine w.heap w'.heap])
   match toks with
   | "cfg" :: rest =>
     let ps := ((kv rest "params").splitOn ",").map parseParam
